@@ -375,8 +375,8 @@ struct Model {
     n_trans: u64,
 }
 impl Model {
-    fn load(root: &std::path::Path) -> Model {
-        let p = root.join("target/tla/assoc.json");
+    fn load(root: &std::path::Path, file: &str) -> Model {
+        let p = root.join("target/tla").join(file);
         let txt = std::fs::read_to_string(&p)
             .unwrap_or_else(|e| vx_kit::report::machinery(&format!("{}: {e} (pre-step c30.sh not run?)", p.display())));
         let v: Value = serde_json::from_str(&txt).unwrap_or_else(|e| vx_kit::report::machinery(&format!("assoc.json: {e}")));
@@ -734,10 +734,358 @@ fn part3(check: &Check, model: &Model) {
     check.add_transitions(covered_edges.lock().unwrap().len() as u64);
 }
 
+// ---------------------------------------------------------------------------------------------
+// part 4: the real storescp binary (sync and --non-blocking) behind a lock-step raw requestor
+// ---------------------------------------------------------------------------------------------
+mod tool {
+    use std::io::{Read, Write};
+    use std::net::TcpStream;
+
+    pub const SC_IMAGE: &str = "1.2.840.10008.5.1.4.1.1.7";
+    fn ui(u: &str) -> Vec<u8> {
+        let mut v = u.as_bytes().to_vec();
+        if v.len() % 2 == 1 {
+            v.push(0);
+        }
+        v
+    }
+    fn el(g: u16, e: u16, val: &[u8]) -> Vec<u8> {
+        let mut v = vec![];
+        v.extend_from_slice(&g.to_le_bytes());
+        v.extend_from_slice(&e.to_le_bytes());
+        v.extend_from_slice(&(val.len() as u32).to_le_bytes());
+        v.extend_from_slice(val);
+        v
+    }
+    fn command(rest: Vec<u8>) -> Vec<u8> {
+        let mut v = el(0, 0, &(rest.len() as u32).to_le_bytes());
+        v.extend(rest);
+        v
+    }
+    pub fn c_echo_rq(id: u16) -> Vec<u8> {
+        let mut r = el(0, 2, &ui(super::VERIFICATION));
+        r.extend(el(0, 0x100, &0x0030u16.to_le_bytes()));
+        r.extend(el(0, 0x110, &id.to_le_bytes()));
+        r.extend(el(0, 0x800, &0x0101u16.to_le_bytes()));
+        command(r)
+    }
+    pub fn c_store_rq(id: u16, inst: &str) -> Vec<u8> {
+        let mut r = el(0, 2, &ui(SC_IMAGE));
+        r.extend(el(0, 0x100, &0x0001u16.to_le_bytes()));
+        r.extend(el(0, 0x110, &id.to_le_bytes()));
+        r.extend(el(0, 0x700, &0u16.to_le_bytes()));
+        r.extend(el(0, 0x800, &0x0001u16.to_le_bytes()));
+        r.extend(el(0, 0x1000, &ui(inst)));
+        command(r)
+    }
+    pub fn dataset(inst: &str) -> Vec<u8> {
+        let mut r = el(8, 0x16, &ui(SC_IMAGE));
+        r.extend(el(8, 0x18, &ui(inst)));
+        r
+    }
+    pub fn pdu(t: u8, body: &[u8]) -> Vec<u8> {
+        let mut v = vec![t, 0];
+        v.extend_from_slice(&(body.len() as u32).to_be_bytes());
+        v.extend_from_slice(body);
+        v
+    }
+    pub fn pdata(pc: u8, is_command: bool, data: &[u8]) -> Vec<u8> {
+        let mut b = vec![];
+        b.extend_from_slice(&(data.len() as u32 + 2).to_be_bytes());
+        b.push(pc);
+        b.push(if is_command { 3 } else { 2 });
+        b.extend_from_slice(data);
+        pdu(4, &b)
+    }
+    fn item(t: u8, d: &[u8]) -> Vec<u8> {
+        let mut v = vec![t, 0];
+        v.extend_from_slice(&(d.len() as u16).to_be_bytes());
+        v.extend_from_slice(d);
+        v
+    }
+    pub fn associate_rq() -> Vec<u8> {
+        let mut b = vec![0, 1, 0, 0];
+        b.extend_from_slice(format!("{:<16}", "ANY-SCP").as_bytes());
+        b.extend_from_slice(format!("{:<16}", "RAW-SCU").as_bytes());
+        b.extend_from_slice(&[0u8; 32]);
+        b.extend(item(0x10, b"1.2.840.10008.3.1.1.1"));
+        for (id, abs) in [(1u8, super::VERIFICATION), (3u8, SC_IMAGE)] {
+            let mut pc = vec![id, 0, 0, 0];
+            pc.extend(item(0x30, abs.as_bytes()));
+            pc.extend(item(0x40, b"1.2.840.10008.1.2"));
+            b.extend(item(0x20, &pc));
+        }
+        let mut ui_ = item(0x51, &16384u32.to_be_bytes());
+        ui_.extend(item(0x52, b"1.2.826.0.1.3680043.2.1143.999"));
+        b.extend(item(0x50, &ui_));
+        pdu(1, &b)
+    }
+    /// Ok(Some(type)) for a PDU, Ok(None) when the peer closed (EOF or reset)
+    pub fn read_pdu(s: &mut TcpStream) -> Result<Option<(u8, Vec<u8>)>, String> {
+        let mut h = [0u8; 6];
+        let mut got = 0;
+        while got < 6 {
+            match s.read(&mut h[got..]) {
+                Ok(0) => return if got == 0 { Ok(None) } else { Err("end of stream inside a PDU header".into()) },
+                Ok(n) => got += n,
+                Err(e) if e.kind() == std::io::ErrorKind::ConnectionReset => return Ok(None),
+                Err(e) => return Err(format!("read: {e}")),
+            }
+        }
+        let len = u32::from_be_bytes([h[2], h[3], h[4], h[5]]) as usize;
+        let mut body = vec![0u8; len];
+        s.read_exact(&mut body).map_err(|e| format!("read body: {e}"))?;
+        Ok(Some((h[0], body)))
+    }
+    pub fn send(s: &mut TcpStream, b: &[u8]) -> Result<(), String> {
+        s.write_all(b).map_err(|e| format!("write: {e}"))
+    }
+}
+
+/// all words: <= 3 letters of {E = C-ECHO, S = small C-STORE, G = garbage PDU}, then one of
+/// {Q = A-RELEASE-RQ, B = A-ABORT, X = close}
+fn tool_words() -> Vec<String> {
+    let mut pre = vec![String::new()];
+    let mut last = vec![String::new()];
+    for _ in 0..3 {
+        let mut nx = vec![];
+        for p in &last {
+            for c in ['E', 'S', 'G'] {
+                nx.push(format!("{p}{c}"));
+            }
+        }
+        pre.extend(nx.iter().cloned());
+        last = nx;
+    }
+    let mut out = vec![];
+    for p in pre {
+        for t in ['Q', 'B', 'X'] {
+            out.push(format!("{p}{t}"));
+        }
+    }
+    out
+}
+
+/// run one word against the server; returns (wire-level trace, expectations that failed)
+fn tool_word(port: u16, word: &str, serial: u32) -> Result<(Vec<String>, Vec<String>), String> {
+    use std::net::{Shutdown, TcpStream};
+    let mut s = TcpStream::connect(("127.0.0.1", port)).map_err(|e| format!("connect: {e}"))?;
+    s.set_read_timeout(Some(std::time::Duration::from_secs(10))).ok();
+    s.set_nodelay(true).ok();
+    tool::send(&mut s, &tool::associate_rq())?;
+    match tool::read_pdu(&mut s)? {
+        Some((2, _)) => {}
+        other => return Err(format!("no A-ASSOCIATE-AC: {:?}", other.map(|p| p.0))),
+    }
+    let mut trace: Vec<String> = vec![];
+    let mut wrong: Vec<String> = vec![];
+    let kind = |t: u8| pdu_kind(t);
+    let mut expect = |s: &mut TcpStream, trace: &mut Vec<String>, wrong: &mut Vec<String>, what: &str, after: &str| -> Result<(), String> {
+        let got = tool::read_pdu(s)?;
+        let g = match &got {
+            Some((t, _)) => {
+                trace.push(format!("put(A,{})", kind(*t)));
+                kind(*t).to_string()
+            }
+            None => {
+                trace.push("close(A)".into());
+                "EOF".to_string()
+            }
+        };
+        if g != what {
+            wrong.push(format!("after {after}: expected {what} from the SCP, got {g}"));
+        }
+        Ok(())
+    };
+    for (i, c) in word.chars().enumerate() {
+        let id = (i + 1) as u16;
+        match c {
+            'E' => {
+                tool::send(&mut s, &tool::pdata(1, true, &tool::c_echo_rq(id)))?;
+                trace.push("put(R,DATA)".into());
+                expect(&mut s, &mut trace, &mut wrong, "DATA", "C-ECHO-RQ")?;
+            }
+            'S' => {
+                let inst = format!("1.2.3.{serial}.{i}");
+                tool::send(&mut s, &tool::pdata(3, true, &tool::c_store_rq(id, &inst)))?;
+                trace.push("put(R,DATA)".into());
+                tool::send(&mut s, &tool::pdata(3, false, &tool::dataset(&inst)))?;
+                trace.push("put(R,DATA)".into());
+                expect(&mut s, &mut trace, &mut wrong, "DATA", "C-STORE-RQ")?;
+            }
+            'G' => {
+                tool::send(&mut s, &tool::pdu(0x99, &[1, 2, 3, 4]))?;
+                trace.push("put(R,UNK)".into());
+            }
+            'Q' => {
+                tool::send(&mut s, &tool::pdu(5, &[0, 0, 0, 0]))?;
+                trace.push("put(R,RRQ)".into());
+                // (I4) the next emission of the acceptor is the release reply, then nothing but the close
+                expect(&mut s, &mut trace, &mut wrong, "RRP", "A-RELEASE-RQ")?;
+                if wrong.is_empty() {
+                    expect(&mut s, &mut trace, &mut wrong, "EOF", "A-RELEASE-RP")?;
+                }
+                let _ = s.shutdown(Shutdown::Both);
+                trace.push("close(R)".into());
+            }
+            'B' => {
+                tool::send(&mut s, &tool::pdu(7, &[0, 0, 2, 0]))?;
+                trace.push("put(R,ABORT)".into());
+                let _ = s.shutdown(Shutdown::Write);
+                trace.push("close(R)".into());
+                expect(&mut s, &mut trace, &mut wrong, "EOF", "A-ABORT")?;
+            }
+            _ => {
+                let _ = s.shutdown(Shutdown::Write);
+                trace.push("close(R)".into());
+                expect(&mut s, &mut trace, &mut wrong, "EOF", "close")?;
+            }
+        }
+    }
+    Ok((trace, wrong))
+}
+
+struct Server {
+    child: std::process::Child,
+    port: u16,
+}
+impl Drop for Server {
+    fn drop(&mut self) {
+        let _ = self.child.kill();
+        let _ = self.child.wait();
+    }
+}
+fn start_storescp(check: &Check, non_blocking: bool, out: &std::path::Path) -> Result<Server, String> {
+    let tgt = std::env::var("VERIF_TARGET").map(std::path::PathBuf::from).unwrap_or_else(|_| check.verif_root().join("target"));
+    let exe = tgt.join("repo/release/dicom-storescp");
+    if !exe.is_file() {
+        return Err(format!("{} not found (pre-step did not build the tools?)", exe.display()));
+    }
+    for _attempt in 0..5 {
+        let port = std::net::TcpListener::bind("127.0.0.1:0").and_then(|l| l.local_addr()).map_err(|e| e.to_string())?.port();
+        let mut cmd = std::process::Command::new(&exe);
+        cmd.arg("-p").arg(port.to_string()).arg("-o").arg(out);
+        if non_blocking {
+            cmd.arg("--non-blocking");
+        }
+        cmd.stdout(std::process::Stdio::null()).stderr(std::process::Stdio::null());
+        let mut srv = Server { child: cmd.spawn().map_err(|e| format!("spawn: {e}"))?, port };
+        for _ in 0..400 {
+            if let Ok(Some(_)) = srv.child.try_wait() {
+                break; // port taken meanwhile: try another
+            }
+            if std::net::TcpStream::connect(("127.0.0.1", port)).is_ok() {
+                return Ok(srv);
+            }
+            std::thread::sleep(std::time::Duration::from_millis(25));
+        }
+    }
+    Err("storescp did not start listening".into())
+}
+
+/// epsilon-NFA run: only put(..) and close(..) are visible on the wire
+fn wire_accepts(model: &Model, trace: &[String]) -> Result<bool, usize> {
+    let visible = |e: &str| e.starts_with("put(") || e.starts_with("close(");
+    // adjacency by source
+    let mut by_src: HashMap<u32, Vec<(&String, &Vec<u32>)>> = HashMap::new();
+    for ((q, e), v) in &model.nfa {
+        by_src.entry(*q).or_default().push((e, v));
+    }
+    let closure = |set: &mut HashSet<u32>| {
+        let mut stack: Vec<u32> = set.iter().copied().collect();
+        while let Some(q) = stack.pop() {
+            if let Some(es) = by_src.get(&q) {
+                for (e, v) in es {
+                    if !visible(e) {
+                        for &d in *v {
+                            if set.insert(d) {
+                                stack.push(d);
+                            }
+                        }
+                    }
+                }
+            }
+        }
+    };
+    let mut cur: HashSet<u32> = HashSet::from([0]);
+    closure(&mut cur);
+    for (i, ev) in trace.iter().enumerate() {
+        let mut nxt = HashSet::new();
+        for &q in &cur {
+            if let Some(v) = model.nfa.get(&(q, ev.clone())) {
+                nxt.extend(v.iter().copied());
+            }
+        }
+        if nxt.is_empty() {
+            return Err(i);
+        }
+        closure(&mut nxt);
+        cur = nxt;
+    }
+    Ok(cur.iter().any(|q| model.final_.contains(q)))
+}
+
+fn part4(check: &Check, scp: &Model) {
+    let words = tool_words();
+    check.extra("tool_words", json!(words.len()));
+    let scratch = check.scratch_dir();
+    let done = std::sync::atomic::AtomicU64::new(0);
+    check.par_range(2, |l: &mut Local, m| {
+        let non_blocking = m == 1;
+        let mode = if non_blocking { "non-blocking" } else { "sync" };
+        if l.check.replaying() && !l.check.replay.as_ref().and_then(|r| r["case_id"].as_str()).map(|c| c.starts_with(&format!("tool/{mode}/"))).unwrap_or(false) {
+            return;
+        }
+        let out = scratch.join(mode);
+        let _ = std::fs::create_dir_all(&out);
+        let srv = match start_storescp(l.check, non_blocking, &out) {
+            Ok(s) => s,
+            Err(e) => {
+                l.check.machinery_error(&format!("storescp ({mode}): {e}"));
+                return;
+            }
+        };
+        for (wi, w) in words.iter().enumerate() {
+            let case_id = format!("tool/{mode}/{w}");
+            if !l.want(&case_id) {
+                continue;
+            }
+            l.eval();
+            match tool_word(srv.port, w, wi as u32) {
+                Err(e) => {
+                    l.outcome("tool-no-answer");
+                    l.fail(&case_id, json!({"part": "tool", "mode": mode, "kind": "scp-stopped-answering", "last": w.chars().last().map(|c| c.to_string())}), json!({"word": w, "error": e}));
+                }
+                Ok((trace, wrong)) => {
+                    l.nontrivial(&(mode, w));
+                    if l.check.verbose {
+                        eprintln!("{case_id}: {trace:?} {wrong:?}");
+                    }
+                    let acc = wire_accepts(scp, &trace);
+                    if !wrong.is_empty() {
+                        l.outcome("tool-unexpected-reply");
+                        l.fail(&case_id, json!({"part": "tool", "mode": mode, "kind": "scp-reply-not-as-required", "last": w.chars().last().map(|c| c.to_string())}), json!({"word": w, "trace": trace, "wrong": wrong}));
+                    } else if acc != Ok(true) {
+                        l.outcome("tool-trace-rejected");
+                        l.fail(&case_id, json!({"part": "tool", "mode": mode, "kind": "wire-trace-not-a-model-behaviour"}), json!({"word": w, "trace": trace, "automaton": format!("{acc:?}")}));
+                    } else {
+                        done.fetch_add(1, std::sync::atomic::Ordering::Relaxed);
+                        l.outcome_with("tool-trace-accepted", || json!({"case": case_id, "trace": trace}));
+                    }
+                }
+            }
+        }
+        drop(srv);
+    });
+    let _ = std::fs::remove_dir_all(&scratch);
+    check.extra("tool_traces_accepted", json!(done.load(std::sync::atomic::Ordering::Relaxed)));
+}
+
 fn main() {
     tune_allocator();
     let check = Check::from_args("C30", Level::ModelChecking);
-    let model = Model::load(check.verif_root());
+    let model = Model::load(check.verif_root(), "assoc.json");
+    let scp_model = Model::load(check.verif_root(), "assoc_scp.json");
     check.set_rule(
         "Part 1: TLC explores tla/Assoc.tla (two peers, FIFO channels, <= 4 API actions per side, PDU kinds DATA/RRQ/RRP/ABORT/unknown) completely and checks \
          invariants I1-I5 in general and in conforming-SCP mode (one run, the initial state fixes the mode; pre-step; numbers under `tlc`). \
@@ -748,25 +1096,28 @@ fn main() {
          from TLC's dumped graph. Part 3: every path of that graph of <= 6 (quick) / 8 (thorough) steps that cannot be \
          extended within the bound is replayed step by step on real associations and must produce exactly the model's \
          events in every step (traces_validated_against_impl). `states`/`transitions` are the distinct model states and \
-         transitions the Rust side actually drove the implementation through in part 3; TLC's own totals are under `tlc`.",
+         transitions the Rust side actually drove the implementation through in part 3; TLC's own totals are under `tlc`. \
+         Part 4: the real storescp binary (sync and --non-blocking) is driven over loopback TCP by a lock-step raw requestor \
+         with every word of <= 3 letters over {C-ECHO, small C-STORE, garbage PDU} followed by {A-RELEASE-RQ, A-ABORT, close}; \
+         each reply must be the required one (release request answered by the release reply as the next emission, then the \
+         close; nothing after an abort) and the wire trace must be accepted by the conforming-SCP automaton (puts and closes \
+         visible, everything else silent).",
     );
     check.assume("the in-memory duplex stands for TCP: ordered, lossless until a side closes; a write towards a closed side succeeds and is lost");
     check.assume("the application driving a side lets the association go after an A-ABORT, an end of stream, an error, and after replying to a release request");
+    check.assume("part 4: lock-step exchange over loopback TCP makes the wire content deterministic; the order in which the raw requestor observes PDUs is a linearisation of the two directions");
     check.assume("TLC's state graph dump is faithful; tla/graph2nfa.py maps each model action to the event list documented there");
     if model.tlc.get("no_error").and_then(|b| b.as_bool()) != Some(true) {
         check.machinery_error("TLC log does not report a clean run");
     }
-    let scp: Option<Value> = serde_json::from_str::<Value>(
-        &std::fs::read_to_string(check.verif_root().join("target/tla/assoc_scp.json")).unwrap_or_default(),
-    )
-    .ok();
     check.extra("tlc", json!({
         "run": model.tlc,
         "general_mode": {"states": model.n_states, "transitions": model.n_trans},
-        "conforming_scp_mode": scp.map(|v| json!({"states": v["model_states"], "transitions": v["model_transitions"]})),
+        "conforming_scp_mode": {"states": scp_model.n_states, "transitions": scp_model.n_trans},
         "invariants": ["TypeOK", "I1", "I2", "I3", "I4", "I5"],
     }));
     part2(&check, &model);
     part3(&check, &model);
+    part4(&check, &scp_model);
     check.finish();
 }
